@@ -269,6 +269,16 @@ func init() {
 				}
 			}
 		}
+		// the input ENDS inside an unterminated tag at a point where the parser needs another token (after a
+		// comma, an operator, an opening bracket, let x =): the error names the line of that tag
+		for _, src := range []string{"<%= rec1(1, ", "<%= 1 + ", "<% let q = ", "<%= [1, 2, ", "<%= ( ", "<%= xs[ ", "<% if ( ", "<%= {a: "} {
+			for fi, fl := range c15fillers {
+				if !e.Thorough() && fi%3 != 0 {
+					continue
+				}
+				judge("input-ends-in-tag", fl.src+"text\n"+src, 1+fl.lines+1, "parse")
+			}
+		}
 	})
 }
 
